@@ -118,6 +118,10 @@ func Materialise(t TypeSpec, v ValueSpec, dst reflect.Value) {
 			Materialise(f.T, v.Fields[i], dst.Field(i))
 		}
 	default:
+		if ck, ok := Custom[t.K]; ok {
+			ck.Set(dst, v)
+			return
+		}
 		panic(fmt.Sprintf("spec: cannot materialise kind %s", t.K))
 	}
 }
